@@ -279,7 +279,11 @@ func Load(ctx context.Context, wd string, env []string, tags string, patterns []
 				ec.add(notePositionAll(fset.Position(obj.Pos()), errs)...)
 				continue
 			}
-			pset := item.(*ProviderSet)
+			pset, ok := item.(*ProviderSet)
+			if !ok {
+				ec.add(notePosition(fset.Position(obj.Pos()), fmt.Errorf("%v does not hold a provider set", obj)))
+				continue
+			}
 			// pset.Name may not equal name, since it could be an alias to
 			// another provider set.
 			id := ProviderSetID{ImportPath: pset.PkgPath, VarName: name}
